@@ -212,6 +212,22 @@ def node_on_fatal(prop, what):
     return handler
 
 
+def decode_on_fatal(prop):
+    """A node of an in-process network died: when it died decoding a replicated entry, the entry that
+    reached it is not the one the leader stored and acknowledged."""
+    def handler(vc, spec, res, c, recs):
+        t = tail(c.logfile, 6000)
+        if "Could not proto.Unmarshal() a (supposed) robust.Message" in t or "Could not json.Unmarshal() a (supposed) robust.Message" in t:
+            i = t.find("Could not ")
+            res.violations.append({"t": "violation", "prop": prop, "key": "replica-died:undecodable-entry",
+                                   "what": "a node of the in-process network died decoding a replicated log entry: " + t[i:i + 300].replace("\n", " "),
+                                   "witness": {"log_tail": t[-1500:]}})
+            res.distinct.add("replica-died")
+        else:
+            res.broken.append({"why": "%s child %d exited rc=%s without summary: %s" % (c.part["test"], c.k, c.rc, tail(c.logfile, 1500))})
+    return handler
+
+
 def c07_on_fatal_other(vc, spec, res, c, recs):
     """The C07 harness running for another property (C10): a death in the replay phase is C07's business."""
     res.obs["c07-harness-child-died"] = res.obs.get("c07-harness-child-died", 0) + 1
@@ -482,7 +498,8 @@ register("C10", title="retried POST is not applied twice", pkg=".",
          env={"ROBUSTIRC_TESTING_ENABLE_PANIC_COMMAND": "1"},
          parts=[{"test": "^TestVerifC10$", "children": {"quick": 8, "thorough": 16}, "cases": {"quick": 40, "thorough": 6000}},
                 {"pkg": "./internal/ircserver", "test": "^TestVerifIRC$", "children": {"quick": 6, "thorough": 16}, "cases": {"quick": 150, "thorough": 3000}},
-                {"pkg": "./internal/api", "test": "^TestVerifC10Follower$", "children": {"quick": 4, "thorough": 16}, "cases": {"quick": 8, "thorough": 120}},
+                {"pkg": "./internal/api", "test": "^TestVerifC10Follower$", "children": {"quick": 4, "thorough": 16}, "cases": {"quick": 8, "thorough": 120},
+                 "on_fatal": decode_on_fatal("C10"), "may_die": True},
                 dict(MAIN_ENGINE),
                 {"test": "^TestVerifC07$", "children": {"quick": 4, "thorough": 8}, "cases": {"quick": 5, "thorough": 30}, "on_fatal": c07_on_fatal_other}],
          timeout={"quick": 400, "thorough": 2400}, level="exploration",
